@@ -325,3 +325,7 @@ RESULT_WORKER_IDS = Contract(
     frame=[],
     props=["C08", "C01"],
 )
+
+
+# handlers with a faithful native counterpart (the real method / the stubbed property) for the native cross-check
+get_workers_by_contract.native = True
